@@ -8,7 +8,11 @@ and write, the rest returns Err and touches nothing; no index check can fail;
 same store/index for read and write, distinct stores for distinct regions;
 (3) a write to a plain location performs exactly one store of the written value and no
 other store; port DDR/DR addresses are routed to the port handlers only;
-(4) every other writer of the backing stores in the crate is enumerated (who-may-write)."""
+(4) every other writer of the backing stores in the crate is enumerated (who-may-write);
+(5) the 18 CPU access helpers read/write_abs{8,16,24}_{b,w,l} are analysed over the
+Bus::read / Bus::write summaries: exactly `size` byte accesses at EA+i, most significant byte
+first, a read returns the big-endian composition, Ok iff every byte access succeeded
+(isa_extra.check_access_helpers)."""
 import bv
 import isacheck
 import models
@@ -315,3 +319,12 @@ def run(ctx, res):
     res.floor("regions mapped", len(region_store), 5)
     res.inventory["region_store"] = region_store
     res.inventory["store_lengths"] = bm.lens
+    # (5) word / long composition in the CPU access helpers
+    import isa_extra
+    r = isa_extra.check_access_helpers(facts)
+    for i in range(r["ob"][0]):
+        res.ob(i < r["ob"][1])
+    for f in r["findings"]:
+        res.finding("helper|" + f["key"], f["msg"], f["witness"])
+    res.floor("access helpers analysed", len(r["helpers"]), 18)
+    res.inventory["access_helpers"] = r["helpers"]
